@@ -37,6 +37,8 @@ META = {
 def run(ctx):
     obs = ctx.obs
     obs.extra['meta'] = META
+    from ..model import set_declaration_order_varies
+    set_declaration_order_varies(True)     # some datasets declare the x dimension before y
     contracts.attach_all(obs, only={'ravel_dimensions', 'wind_dimension'})
     if ctx.thorough and ctx.shard == 0 and ctx.only_case is None:
         from ..suite_contracts import run_repo_suite_with_contracts
@@ -139,6 +141,13 @@ def one_dataset(obs, rng, conv, spec, workdir=None):
             data = model.fresh_ids(tuple(shape))
             if rng.random() < 0.3:
                 data = numpy.where(rng.random(data.shape) < 0.2, numpy.nan, data)
+            layout = ['C', 'F', 'strided'][int(rng.integers(3))]
+            if layout == 'F':
+                data = numpy.asfortranarray(data)            # column-major buffer (e.g. the transpose of a ravel result)
+            elif layout == 'strided' and data.ndim >= 1:
+                big = numpy.repeat(data, 2, axis=-1)
+                data = big[..., ::2]                         # non-contiguous view
+            obs.cls('wind:memory-layout-' + layout)
             x = xarray.DataArray(data, dims=dims)
             mode = ['axis', 'name', 'default'][int(rng.integers(3))] if pos == nother else ['axis', 'name'][int(rng.integers(2))]
             obs.cls('wind:' + mode)
